@@ -19,6 +19,11 @@ class C08(Check):
     trusted = ["hex/base64/base32 text codecs of Go's encoding/* are outside the model (fields held as the octets they denote)",
                "EDNS0 option and SVCB parameter values are (code, packed value, reported length) triples at this level"]
 
+    partial = ["hypothesis of the theorems, checked per case by the harness rather than proved: for every EDNS0 option / SVCB parameter "
+               "the value's own len() is at least the octets its pack() returns (their codecs are outside this model level)",
+               "records are taken with their base kind (SIG/KEY/CDS/... flattened to the embedded type, as Go method promotion does); "
+               "rr_len_embedding_kind_refuted shows why the theorems say so"]
+
     def nontrivial(self, c):
         return len(c["args"][0]) > 80
 
